@@ -458,3 +458,24 @@ Definition suite_C18 (inp obs : list tok) : verdict :=
 (* the all-quiet observation: Ok, count 0, nothing changed anywhere (used by the non-vacuity example) *)
 Definition enc18_ok (o : obs18) : bool :=
   (o_class o =? 0) && (o_count o =? 0) && (o_ext o =? 0) && is_nil (o_changed o) && is_nil (o_dirty o).
+
+
+(* ------------------------------------------------------------------ suite C18huge
+   VolatileSlice::copy_to / copy_from of k ZERO-SIZED elements, k up to usize::MAX (a buffer of zero-sized
+   elements occupies no memory, so it may be longer than isize::MAX).  volatile_memory.rs:573-576 / :656:
+   size_of::<T>() == 0 => copy_to answers buf.len(), copy_from does nothing - no element count is ever
+   handed to get_array_ref (which refuses counts above isize::MAX).  A successful no-op at every layer.
+     case: mode layer op(10 copy_to | 11 copy_from) sk k      obs: class count touched *)
+Definition run_C18huge (op k : N) : list N := [0; if op =? 10 then k else 0; 0].
+Definition ok_C18huge (op k : N) (obs : list N) : bool :=
+  match obs with
+  | [cl; cnt; touched] => (cl =? 0) && (touched =? 0) && (if op =? 10 then cnt =? k else cnt =? 0)
+  | _ => false end.
+Definition suite_C18huge (inp obs : list tok) : verdict :=
+  match inp, obs with
+  | [TN md; TN layer; TN op; TN sk; TN k], [TN cl; TN cnt; TN touched] =>
+      if (layer <=? 2) && ((op =? 10) || (op =? 11)) && (sk <=? 1) && (k <? W64) then
+        {| v_model := map TN (run_C18huge op k); v_ok := ok_C18huge op k [cl; cnt; touched]; v_wellformed := true |}
+      else malformed
+  | _, _ => malformed
+  end.
